@@ -6,7 +6,9 @@ require (
 	github.com/ARM-software/golang-utils/utils v0.0.0
 	github.com/OneOfOne/xxhash v1.2.8
 	github.com/go-logr/logr v1.4.2
+	github.com/shirou/gopsutil/v4 v4.25.3
 	github.com/spaolacci/murmur3 v1.1.0
+	github.com/spf13/afero v1.14.0
 	golang.org/x/crypto v0.37.0
 )
 
@@ -34,9 +36,7 @@ require (
 	github.com/pmezard/go-difflib v1.0.1-0.20181226105442-5d4384ee4fb2 // indirect
 	github.com/sagikazarmark/locafero v0.7.0 // indirect
 	github.com/sasha-s/go-deadlock v0.3.5 // indirect
-	github.com/shirou/gopsutil/v4 v4.25.3 // indirect
 	github.com/sourcegraph/conc v0.3.0 // indirect
-	github.com/spf13/afero v1.14.0 // indirect
 	github.com/spf13/cast v1.7.1 // indirect
 	github.com/spf13/pflag v1.0.6 // indirect
 	github.com/spf13/viper v1.20.1 // indirect
